@@ -172,6 +172,25 @@ def headIs (c : UInt8) : Bytes → Bool
 
 @[inline] def isSign (c : UInt8) : Bool := c == 0x2B || c == 0x2D
 
+/-- `l.atLineEnd()` on `l.input[l.pos:]`: a line feed, or a carriage return directly followed
+    by a line feed (a carriage return not followed by a line feed is an ordinary byte). -/
+def atEol (a : Bytes) : Bool :=
+  match a with
+  | [] => false
+  | c :: t => c == 0x0A || (c == 0x0D && headIs 0x0A t)
+
+/-- `for l.pos < len(l.input) && p(l.peek()) && !l.atLineEnd() { l.advance() }`: the loops that
+    run to the end of the line (`scanComment`, `scanCode`, `scanIndent`, `scanQuotedCommodity`,
+    `scanText`). -/
+def advLineF (p : UInt8 → Bool) : Nat → Z → Z
+  | 0, z => z
+  | n+1, z =>
+    match z.after with
+    | [] => z
+    | b :: t => if p b && !atEol (b :: t) then advLineF p n (advance z) else z
+def advLine (p : UInt8 → Bool) (z : Z) : Z := advLineF p z.after.length z
+
+
 /-- exponent look-ahead of `scanNumber` on `l.input[l.pos+1:]`: `nextPos` steps over one sign,
     then a digit must follow. -/
 def expAhead : Bytes → Bool
@@ -276,21 +295,22 @@ def scanStatus (z : Z) : Token × Z :=
 
 def scanCode (z : Z) : Token × Z :=
   let z1 := advance z
-  let z2 := advWhile (fun c => c != 0x29 && c != 0x0A) z1
+  let z2 := advLine (fun c => c != 0x29) z1
   let e := advIf (· == 0x29) z2
   mkTok .code (between z1 z2) z e
 
 def scanComment (z : Z) : Token × Z :=
   let z1 := advance z
-  let e := advWhile (fun c => c != 0x0A) z1
+  let e := advLine (fun _ => true) z1
   mkTok .comment (between z1 e) z e
 
 def scanIndent (z : Z) : Token × Z :=
-  let e := advWhile (fun c => isWhitespace c && c != 0x0A) z
+  let e := advLine isWhitespace z
   mkTok .indent (between z e) z e
 
+/-- `scanNewline`: `"\n"` or `"\r\n"` is ONE token (Pos at the CR, End behind the LF, value `"\n"`). -/
 def scanNewline (z : Z) : Token × Z :=
-  let z1 := advance z
+  let z1 := advance (advIf (· == 0x0D) z)
   mkTok .newline [0x0A] z { z1 with line := z1.line + 1, col := 1, atStart := true }
 
 /-- loop of `scanAccount`: current state and the state at `lastNonSpace`. -/
@@ -334,7 +354,7 @@ def scanCurrencySymbol (z : Z) : Token × Z :=
 
 def scanQuotedCommodity (z : Z) : Token × Z :=
   let z1 := advance z
-  let z2 := advWhile (fun c => c != 0x22 && c != 0x0A) z1
+  let z2 := advLine (fun c => c != 0x22) z1
   let e := advIf (· == 0x22) z2
   mkTok .commodity (between z1 z2) z e
 
@@ -350,7 +370,7 @@ def scanSign (z : Z) : Token × Z :=
   mkTok .sign (encodeRune (peek z).toNat) z (advance z)
 
 def scanText (z : Z) : Token × Z :=
-  let e := advWhile (fun ch => !(ch == 0x0A || ch == 0x3B || ch == 0x7C)) z
+  let e := advLine (fun ch => !(ch == 0x3B || ch == 0x7C)) z
   mkTok .text (trimSpace (between z e)) z e
 
 def scanDirectiveOrAccount (z : Z) : Token × Z :=
@@ -383,9 +403,9 @@ def punct (ty : TokType) (val : Bytes) (z : Z) : Token × Z :=
 def scanInLineAt (C : Classes) (z : Z) : Token × Z :=
   match z.after with
   | [] => mkTok .eof [] z z
-  | ch :: _ =>
+  | ch :: t =>
     let r := peekRune z
-    if ch == 0x0A then scanNewline z
+    if atEol (ch :: t) then scanNewline z
     else if ch == 0x3B then scanComment z
     else if ch == 0x28 then
       if looksLikeVirtualAccount z.after then punct .lparen [0x28] z else scanCode z
@@ -409,14 +429,16 @@ def scanInLineAt (C : Classes) (z : Z) : Token × Z :=
 
 def scanInLine (C : Classes) (z0 : Z) : Token × Z := scanInLineAt C (skipSpaces z0)
 
-def scanLineStart (C : Classes) (z0 : Z) : Token × Z :=
-  let z := { z0 with atStart := false }
+/-- `scanLineStart` behind `l.atStart = false`. -/
+def scanLineStartAt (C : Classes) (z : Z) : Token × Z :=
   let p := peek z
   if p == 0x3B then scanComment z
-  else if isWhitespace p && p != 0x0A then scanIndent z
+  else if isWhitespace p && !atEol z.after then scanIndent z
   else if isDigit p then scanDate z
   else if isLetter p then scanDirectiveOrAccount z
   else scanInLine C z
+
+def scanLineStart (C : Classes) (z0 : Z) : Token × Z := scanLineStartAt C { z0 with atStart := false }
 
 /-- `(*Lexer).Next`. -/
 def next (C : Classes) (z : Z) : Token × Z :=
